@@ -218,7 +218,7 @@ bool border(const numpy::aligned_array<T> array, const numpy::aligned_array<T> f
 }
 
 template <typename T, typename F>
-void labeled_foldl(const numpy::aligned_array<T> array, const numpy::aligned_array<int> labeled, T* result, const int maxlabel, const T start, F f) {
+void labeled_foldl(const numpy::aligned_array<T> array, const numpy::aligned_array<int> labeled, T* result, const npy_intp maxlabel, const T start, F f) {
     gil_release nogil;
     typename numpy::aligned_array<T>::const_iterator iterator = array.begin();
     numpy::aligned_array<int>::const_iterator literator = labeled.begin();
@@ -247,21 +247,21 @@ const T& std_like_max(const T& a, const T& b) {
 }
 
 template <typename T>
-void labeled_sum(const numpy::aligned_array<T> array, const numpy::aligned_array<int> labeled, T* result, const int maxlabel) {
+void labeled_sum(const numpy::aligned_array<T> array, const numpy::aligned_array<int> labeled, T* result, const npy_intp maxlabel) {
     labeled_foldl(array, labeled, result, maxlabel, T(), std::plus<T>());
 }
 template <>
-void labeled_sum<bool>(const numpy::aligned_array<bool> array, const numpy::aligned_array<int> labeled, bool* result, const int maxlabel) {
+void labeled_sum<bool>(const numpy::aligned_array<bool> array, const numpy::aligned_array<int> labeled, bool* result, const npy_intp maxlabel) {
     labeled_foldl(array, labeled, result, maxlabel, false, std::logical_or<bool>());
 }
 
 template <typename T>
-void labeled_max(const numpy::aligned_array<T> array, const numpy::aligned_array<int> labeled, T* result, const int maxlabel) {
+void labeled_max(const numpy::aligned_array<T> array, const numpy::aligned_array<int> labeled, T* result, const npy_intp maxlabel) {
     labeled_foldl(array, labeled, result, maxlabel,std::numeric_limits<T>::lowest(), std_like_max<T>);
 }
 
 template <typename T>
-void labeled_min(const numpy::aligned_array<T> array, const numpy::aligned_array<int> labeled, T* result, const int maxlabel) {
+void labeled_min(const numpy::aligned_array<T> array, const numpy::aligned_array<int> labeled, T* result, const npy_intp maxlabel) {
     labeled_foldl(array, labeled, result, maxlabel,std::numeric_limits<T>::max(), std_like_min<T>);
 }
 
@@ -405,7 +405,7 @@ PyObject* py_labeled_sum(PyObject* self, PyObject* args) {
         PyErr_SetString(PyExc_RuntimeError, TypeErrorMsg);
         return NULL;
     }
-    const int maxi = PyArray_DIM(output, 0);
+    const npy_intp maxi = PyArray_DIM(output, 0);
 
 #define HANDLE(type) \
     { \
@@ -435,7 +435,7 @@ PyObject* py_labeled_max_min(PyObject* self, PyObject* args) {
         PyErr_SetString(PyExc_RuntimeError, TypeErrorMsg);
         return NULL;
     }
-    const int maxi = PyArray_DIM(output, 0);
+    const npy_intp maxi = PyArray_DIM(output, 0);
 
 #define HANDLE(type) \
     { \
